@@ -9,7 +9,8 @@ hook_commits = [l.split()[0] for l in hooks if "verif hook" in l]
 checks, na = [], []
 for p in props:
     pid = p["id"]
-    c = cfg["properties"].get(pid)
+    pp = os.path.join(ROOT, "checks.d", pid + ".json")
+    c = json.load(open(pp)) if os.path.exists(pp) else None
     if c is None or c.get("not_applicable"):
         na.append({"property_id": pid, "reason": (c or {}).get("not_applicable", "check not built yet (work in progress; see DESIGN.md section 9)")})
         continue
